@@ -172,7 +172,7 @@ func randOptions(rng *rand.Rand, forStore bool) (*pebble.Options, []string) {
 		case 1:
 			o.MultiLevelCompactionHeuristic = pebble.OptionWriteAmpHeuristic
 		default:
-			h := pebble.WriteAmpHeuristic{AddPropensity: pick(rng, 0.0, 0.1, 0.005, 1.5, rng.Float64()*10), AllowL0: rng.IntN(2) == 0}
+			h := pebble.WriteAmpHeuristic{AddPropensity: pick(rng, 0.0, 0.1, 0.005, 1.5, rng.Float64()*10, -0.5, -1.75, -0.004, -rng.Float64()*3), AllowL0: rng.IntN(2) == 0}
 			o.MultiLevelCompactionHeuristic = func() pebble.MultiLevelHeuristic { return &h }
 		}
 	})
